@@ -128,8 +128,10 @@ class ModelMixin2:
                 for sp in specs:
                     if isinstance(sp, Raise):
                         return sp
-                lo = min(sp.lo for sp in specs)
-                his = [sp.hi for sp in specs if sp.hi is not None]
+                endless = [sp for sp in specs if sp.descr.startswith('itertools.')]
+                finite = [sp for sp in specs if sp not in endless] or specs
+                lo = min(sp.lo for sp in finite)
+                his = [sp.hi for sp in finite if sp.hi is not None]
                 hi = min(his) if his else None
 
                 def make(s, k, specs=specs):
@@ -146,6 +148,9 @@ class ModelMixin2:
                     n = min(len(sp.exact) for sp in specs)
                     return IterSpec(n, n, [TupleV(tuple(sp.exact[i] for sp in specs)) for i in range(n)], None, 'zip')
                 return IterSpec(lo, hi, None, make, 'zip')
+        if isinstance(v, ExtV) and v.name in ('result:itertools.count', 'result:itertools.cycle', 'result:itertools.repeat'):
+            # an endless supplier: it never ends a zip(); the numbers themselves are opaque
+            return IterSpec(2, None, None, lambda s, k: [(NumV(('count',)), s)], v.name[len('result:'):], ordered=True)
         if isinstance(v, Unknown) or isinstance(v, ExtV):
             self.note(f'iteration over unknown value {norm(node) if node is not None else ""}')
             return IterSpec(0, None, None, lambda s, k: [(Unknown('element of unknown iterable'), s)], 'unknown', ordered=False)
@@ -435,7 +440,48 @@ class ModelMixin2:
 
     # -- enumerate(start=<index>) protocol: the counter stays a valid position only while every
     #    iteration inserts exactly one node at it (DESIGN §2.3, IDX-ADVANCE)
+    # -- a list that is empty before a loop and appended to exactly once in every iteration has the length of the
+    #    iterated sequence afterwards (xs = []; for y in ys: xs.append(f(y))  =>  len(xs) == len(ys))
+    def _lapp_roll(self, st: State, depth, count):
+        la = dict(st.mon.get('lapp') or {})
+        if count == 0:
+            empties = tuple(sorted(sym for sym, e in st.heap.items() if isinstance(e, ListE) and e.kind == 'lit' and e.hi == 0))
+            la[depth] = (empties, (), None)
+        elif depth in la:
+            E, C, OK = la[depth]
+            once = {s for s, n in C if n == 1}
+            OK = tuple(sorted((set(E) & once) if OK is None else (set(OK) & once)))
+            la[depth] = (E, (), OK)
+        st.mon['lapp'] = la
+
+    def lapp_note(self, st: State, sym):
+        la = st.mon.get('lapp')
+        if not la:
+            return
+        new = {}
+        for d, (E, C, OK) in la.items():
+            c = dict(C)
+            c[sym] = min(c.get(sym, 0) + 1, 2)
+            new[d] = (E, tuple(sorted(c.items())), OK)
+        st.mon['lapp'] = new
+
+    def loop_exit(self, st, depth, spec, count):
+        la = st.mon.get('lapp') or {}
+        if depth not in la or count == 0:
+            return
+        self._lapp_roll(st, depth, count)
+        E, C, OK = st.mon['lapp'][depth]
+        for sym in OK or ():
+            e = st.heap.get(sym)
+            if isinstance(e, ListE) and e.kind in ('accum', 'lit'):
+                if count < 2:
+                    st.put(sym, replace(e, lo=count, hi=count))
+                else:
+                    st.put(sym, replace(e, lo=max(2, spec.lo), hi=spec.hi))
+
     def loop_iter_start(self, st: State, depth, spec, count):
+        if spec.exact is None:
+            self._lapp_roll(st, depth, count)
         stale = [f for f in st.facts if f[0] in ('nonempty', 'emptystr') and ('each(' in f[1] or 'child(' in f[1])]
         for f in stale:
             st.facts.discard(f)          # string facts about the previous generic element
@@ -531,11 +577,8 @@ class ModelMixin2:
         st.mon['advsym'] = m
         return Ref('idx', sym)
 
-    def loop_exit(self, st, depth, spec, count):
-        pass
-
     def loop_done(self, st: State, depth):
-        for name in ('itlog', 'adv', 'advsym', 'advbase', 'livedepth'):
+        for name in ('itlog', 'adv', 'advsym', 'advbase', 'livedepth', 'lapp'):
             m = st.mon.get(name)
             if m and depth in m:
                 m = dict(m)
